@@ -61,6 +61,9 @@ pub struct Knobs {
     /// delivery granularity from peer to socket buffer: 0 whole segment, 1 tiny pieces, 2 random
     pub deliver_style: u32,
     pub spurious_polls: u32,
+    /// Every poll of a task (and of a handler sub-future) gets a Waker of its own; only the one handed to the
+    /// most recent poll schedules the task (the `Future::poll` contract), wake-ups through older ones are lost.
+    pub fresh_wakers: bool,
 }
 
 pub struct World {
@@ -446,7 +449,8 @@ impl Exec {
     pub fn poll_task(&mut self, i: usize) {
         let t = &mut self.tasks[i];
         let Some(fut) = t.fut.as_mut() else { return };
-        t.flag.take();
+        let fresh = { let mut w = lock(&self.world); let f = w.knobs.fresh_wakers; if f && t.polls > 0 { w.cx.probe("fresh_waker_per_poll"); } f };
+        if fresh { t.flag = WakeFlag::new(false); } else { t.flag.take(); }
         t.polls += 1;
         let waker = Waker::from(t.flag.clone());
         let mut cx = Context::from_waker(&waker);
@@ -665,8 +669,14 @@ impl<T: Unpin> Future for Join<'_, T> {
                 w.cx.ev("sub_poll", ready[k] as u64, 0);
                 ready[k]
             };
+            let fresh = lock(&this.world).knobs.fresh_wakers;
             let (f, sw) = &mut this.children[i];
-            sw.flag.store(false, Ordering::SeqCst);
+            if fresh {
+                // a waker of its own for this poll of the child; the previous one no longer schedules it
+                *sw = Arc::new(SubWake { flag: AtomicBool::new(false), parent: Mutex::new(Some(cx.waker().clone())) });
+            } else {
+                sw.flag.store(false, Ordering::SeqCst);
+            }
             let waker = Waker::from(sw.clone());
             let mut scx = Context::from_waker(&waker);
             if let Poll::Ready(v) = f.as_mut().expect("live").as_mut().poll(&mut scx) {
